@@ -231,9 +231,12 @@ func (f *Fetcher) FetchAccountByKey(ctx context.Context, pubKey []byte) (e2wtype
 	if vsym.Fault("fetcher.FetchAccountByKey") {
 		return nil, nil, errors.New("injected: FetchAccountByKey failed")
 	}
+	// like the real fetcher (bytesutil.ToBytes48): the key is truncated or zero-padded to 48 bytes
+	var k48 [48]byte
+	copy(k48[:], pubKey)
 	for _, w := range f.Wallets {
 		for _, a := range w.Accts {
-			if string(a.PublicKey().Marshal()) == string(pubKey) {
+			if string(a.PublicKey().Marshal()) == string(k48[:]) {
 				return w, a, nil
 			}
 		}
